@@ -64,3 +64,31 @@ Print Assumptions C05_supply.
 Print Assumptions C05_share.
 Print Assumptions C05_first.
 Print Assumptions C05_nonvacuous.
+
+From HT Require Import Proofs.WFProofs Proofs.LockedProofs.
+Theorem C05_inert_step : forall w o w',
+  WF w -> Inert' w -> ~ is_contract w (caller_of o) -> room w o -> exec w o = Ok w' -> Inert' w'.
+Proof. exact exec_preserves_Inert_variant. Qed.
+Print Assumptions C05_inert_step.
+
+Theorem C05_inert_history : forall ops w,
+  WF w -> Inert' w -> user_ops w ops -> w_next (run w ops) <= 1000 -> WF (run w ops) /\ Inert' (run w ops).
+Proof. exact run_preserves_Inert_variant. Qed.
+Print Assumptions C05_inert_history.
+
+Theorem C05_locked_unit : forall w o w' p ps,
+  WF w -> Inert' w -> ~ is_contract w (caller_of o) -> exec w o = Ok w' -> w_pairs w p = Some ps ->
+  bal w (AToken (p_lp ps)) (p_lp ps) <= bal w' (AToken (p_lp ps)) (p_lp ps).
+Proof. exact locked_unit_never_decreases_variant. Qed.
+Print Assumptions C05_locked_unit.
+
+Theorem C05_lp_address_never_debited : forall w o w' p ps y,
+  WF w -> Inert' w -> ~ is_contract w (caller_of o) -> exec w o = Ok w' -> w_pairs w p = Some ps ->
+  bal w y (p_lp ps) <= bal w' y (p_lp ps).
+Proof. exact lp_address_never_debited. Qed.
+Print Assumptions C05_lp_address_never_debited.
+
+From HT Require Import World.Observe Proofs.InitProofs.
+Theorem C05_inert_start : forall L ubal fbal tdec, Inert' (init_world L ubal fbal tdec).
+Proof. exact init_world_Inert'. Qed.
+Print Assumptions C05_inert_start.
